@@ -286,7 +286,7 @@ def add_run_contracts(w):
            effects=['recorded = recorded + rows'],
            note='Evolution.objects.using(db).bulk_create(rows); assumed atomic (nothing written when it raises)')
     w.contract(
-        'Evolver._save_project_sig', module=EVOLVER, serves=['C07', 'C17', 'C08'],
+        'Evolver._save_project_sig', module=EVOLVER, serves=['C07', 'C17', 'C08', 'C15'],
         params={'self': K.Ref('Evolver'), 'new_evolutions': K.Seq(ROW)},
         raises={'EvolutionExecutionError': True},
         modifies=['Evolver.version', 'EvolutionRow.version', 'saved', 'recorded'],
@@ -304,7 +304,7 @@ def add_run_contracts(w):
                  'self.version is not None'],
         ensures_exc=['recorded == old(recorded)', 'saved <= old(saved) + 1'])
     w.contract(
-        'Evolver.evolve', module=EVOLVER, serves=['C07', 'C17', 'C08'],
+        'Evolver.evolve', module=EVOLVER, serves=['C07', 'C17', 'C08', 'C15'],
         params={'self': K.Ref('Evolver')},
         requires=['life == IDLE', 'saved == 0', 'len(recorded) == 0', 'not exec_failed', 'not exec_after_save'],
         locals={'new_evolutions': K.Seq(ROW)},
